@@ -282,3 +282,5 @@ func RunEnum[C any](t *testing.T, col *stats.Collector, prop, test string, cases
 	})
 	col.Flush()
 }
+
+func newCol(prop, test string) *stats.Collector { return stats.New(prop, test) }
